@@ -79,6 +79,18 @@ pub open spec fn rebuild_post<F: Fn(&TaskMap) -> bool>(f: F, renumber: bool, w: 
     // tasks that stay keep their relative order; newcomers come after every task that stays
     &&& order_ok(w, w2)
 }
+/// what rebuild stores has no trailing blanks (newcomers beyond the old length are all Some)
+pub proof fn lemma_final_ws_trimmed(n: Ws, l: int)
+    requires n.len() >= 1, l >= 1, forall|j: int| l <= j < n.len() ==> (#[trigger] n[j]) is Some
+    ensures ws_trim(final_ws(n, l)) == final_ws(n, l)
+{
+    if n.len() <= l { lemma_trim_idem(n); } else {
+        let a = ws_trim(n.take(l)); let b = n.skip(l);
+        lemma_trim_prefix(n.take(l));
+        assert(b.len() >= 1 && b.last() == n[n.len() - 1]);
+        assert((a + b).last() == b.last());
+    }
+}
 /// storage contents (before trimming) while the "shrink" loop runs: new_ws, then blanks up to i, then old tail
 pub open spec fn less_state(n: Ws, w: Ws, i: int) -> Ws {
     Seq::new(w.len(), |j: int| if j < n.len() { n[j] } else if j < i { None } else { w[j] })
